@@ -163,6 +163,7 @@ class Checker:
         self.run, self.T = run, tools
         self.n_corr_bad = 0
         self.spec_failed = set()     # cmp/kind cases already reported with a concrete pair by types_spec
+        self.table_caches = set()    # (type, depth, cache type) the loaders accept: hwloc_cache_type_by_depth_type, regenerated table
         self.tier_answers = {}       # lower-cased forced tier name -> C answer
         self.depth_expect = {}       # sad case line -> (type, level) for the texts printed for the levels themselves
 
@@ -224,7 +225,7 @@ class Checker:
                     e = contract_spec(a)
                     if e:
                         spec_bad = ("type-snprintf-contract:" + c.replace(" ", "_"), "hwloc_obj_type_snprintf length contract: %s (%s)" % (e, c))
-                    elif (G.tsn_in_domain(f) or from_load) and not (f[7] & G.F_SHORT):
+                    elif (G.tsn_in_domain(f) or from_load or f[:3] in self.table_caches) and not (f[7] & G.F_SHORT):
                         e = roundtrip_spec(f, a)
                         if e:
                             key = K_BRIDGE if (f[0] == G.T_BRIDGE and from_load) else "type-roundtrip:" + c.replace(" ", "_")
@@ -507,6 +508,17 @@ def check(run, replay=None):
     cases += ALL_TYPE_CASES
     cases += ["tstr %d" % t for t in range(0, 22)]
     cases += G.tsn_cases(rng, run.tier)
+    # every (depth, cache type) the loaders map to a cache object type (hwloc_cache_type_by_depth_type as compiled from
+    # the current source: finite table) is an attribute value reachable through load: its text must round trip
+    try:
+        tbl = G.read_tables(os.path.join(C.COQ, "Gen", "Tables.v")).get("cache_type_by_depth_type_tbl", [])
+        for d, row in enumerate(tbl):
+            for ct, v in enumerate(re.findall(r"\((-?\d+)\)%Z", row)):
+                if int(v) >= 0:
+                    ck.table_caches.add((int(v), d, ct))
+                    cases += [G.tsn(int(v), cd=d, ct=ct, flags=fl) for fl in (0, 2)]
+    except OSError:
+        pass
     cases += G.asn_cases(rng, run.tier, T.cls_text, T.lnk_text)
     ssc = G.ssc_cases(rng, run.tier)
     e0 = G.ssc_e0_cases(rng, run.tier)
